@@ -166,7 +166,7 @@ def run_c03(tier):
                     v.disagree("unexpected-failing-step", {"batch": [it.text for it in batch[:5]]}, {"step": ft, "errors": rep.errors[:4]})
                     continue
                 for e in rep.errors:
-                    m = re.search(r'"(q\d+)"', e)
+                    m = re.search(r'(?<![A-Za-z0-9_.-])(q\d+)(?![A-Za-z0-9_-])', e)
                     if m:
                         got.add(m.group(1))
             for i, it in enumerate(batch):
